@@ -294,7 +294,9 @@ impl<'a> Model<'a> {
                         match k.parse(key) {
                             None => {
                                 ok = false;
-                                self.report(out, ExpClass::Unexpected { contains: Some(key.clone()) }, loc);
+                                // the key as the message quotes it (a bare " c" would also match the
+                                // " could not be deserialized" of every other key's message)
+                                self.report(out, ExpClass::Unexpected { contains: Some(format!("\"{key}\"")) }, loc);
                             }
                             Some(pk) => {
                                 let c = push(loc, Step::Key(key.clone()));
